@@ -46,12 +46,13 @@ func structural(d Damage) bool {
 func main() {
 	runner.Main(runner.Config{
 		ID:    "C06",
-		Level: "fault_enumeration",
-		Rule:  "bounded exhaustive enumeration, free-running goroutines: 7 builds (nested dirs with dirs/symlinks/files below, 1- and 2-block files, empty files, empty dirs, symlinks to files/dirs/upwards, the empty build) x every damage sequence of length 0, 1 and 2 and every triple of structural damages (quick: every 12th triple) (i<j<k in catalogue order: files, symlinks, dirs deepest first, whole directory) over the catalogue {flip/truncate at every boundary offset, empty, extend, fill, delete, retarget, kind swaps: file->non-empty dir/dangling symlink/symlink to its renamed original, symlink->file/non-empty dir, dir->file/dangling symlink/symlink to its renamed original/symlink to a file, dir emptied, root emptied, root missing} plus harmless extras (entries outside the build) -> real Validate with HealPath archive,<zip of the pristine build made by archiver.CompressZip or containerarchiver.CompressZip> under a 120s watchdog -> returns nil; independent Lstat tree oracle: every signed entry present with signed kind/content/dest (extras allowed); fail-fast validation of the result returns nil; a directory that was valid is unchanged incl. inode and mtime. Every case is executed 5 times (2 for pairs of pure content damages); a failure seen in only some executions is reported with the fingerprint suffix schedule-dependent. Non-trivial = the directory handed to Validate deviates from the signed build in a signed entry (or the pristine family).",
+		Level: "model_checking",
+		Rule:  "(a) variant sched: stateless model checking of the real Validate + archive healer under a controlled scheduler with file-system calls as visible operations: every interleaving of validator passes, validate worker, relays/aggregators, healer wound loop and heal worker up to a preemption bound (happens-before cached DFS) on small builds x damage sets x wound-channel capacities, oracle after every execution; (b) bounded exhaustive fault enumeration, free-running goroutines: 7 builds (nested dirs with dirs/symlinks/files below, 1- and 2-block files, empty files, empty dirs, symlinks to files/dirs/upwards, the empty build) x every damage sequence of length 0, 1 and 2 and every triple of structural damages (quick: every 12th triple) (i<j<k in catalogue order: files, symlinks, dirs deepest first, whole directory) over the catalogue {flip/truncate at every boundary offset, empty, extend, fill, delete, retarget, kind swaps: file->non-empty dir/dangling symlink/symlink to its renamed original, symlink->file/non-empty dir, dir->file/dangling symlink/symlink to its renamed original/symlink to a file, dir emptied, root emptied, root missing} plus harmless extras (entries outside the build) -> real Validate with HealPath archive,<zip of the pristine build made by archiver.CompressZip or containerarchiver.CompressZip> under a 120s watchdog -> returns nil; independent Lstat tree oracle: every signed entry present with signed kind/content/dest (extras allowed); fail-fast validation of the result returns nil; a directory that was valid is unchanged incl. inode and mtime. Every case is executed 5 times (2 for pairs of pure content damages); a failure seen in only some executions is reported with the fingerprint suffix schedule-dependent. Non-trivial = the directory handed to Validate deviates from the signed build in a signed entry (or the pristine family).",
 		Assumptions: []string{
 			"goroutines of Validate/healer run free (Go scheduler); the interleaving dimension proper is the E2 part of C06, so a schedule-dependent defect may be missed here by chance but is never reported falsely",
 			"file modes are not compared; damage bytes are seeded pseudo-random",
 		},
+		Variants:       []string{"sched"},
 		QuickBudget:    120 * time.Second,
 		ThoroughBudget: 15 * time.Minute,
 	}, body)
@@ -70,7 +71,13 @@ func record(o Out, r *runner.Rec) {
 	r.Trans(o.Trans)
 }
 
+var schedSubs func(w *runner.W)
+
 func body(w *runner.W) {
+	if schedSubs != nil && w.Variant == "sched" {
+		schedSubs(w)
+		return
+	}
 	// the pid keeps a worker restarted after a crash away from the leftovers of its predecessor
 	env := NewEnv(filepath.Join(w.Scratch(), fmt.Sprintf("c06-%d", os.Getpid())), w.Seed)
 	run := func(c Case, r *runner.Rec) { record(HealCase(env, c), r) }
